@@ -47,6 +47,9 @@ func poisoned(b []byte) []byte {
 }
 
 func exact(b []byte) []byte {
+	if b == nil {
+		return nil
+	}
 	c := make([]byte, len(b))
 	copy(c, b)
 	return c[:len(b):len(b)]
@@ -112,7 +115,7 @@ func decodeEvent(b []byte) J {
 	if e.ok {
 		ev["msg2"] = projHSMS(e.m)
 		ev["same2"], ev["bytes2"] = same(e.m.ToBytes())
-		ev["type2"] = e.m.Type()
+		ev["type2"] = typeOfMsg(e.m)
 	} else {
 		ev["msg2"] = J{"kind": "nil"}
 		ev["type2"] = ""
@@ -121,6 +124,13 @@ func decodeEvent(b []byte) J {
 		ev["psame2"], ev["pbytes2"] = same(p.m.ToBytes())
 	}
 	return ev
+}
+
+func typeOfMsg(m ast.HSMSMessage) (t string) {
+	if p, _ := try(func() { t = m.Type() }); p {
+		return "PANIC"
+	}
+	return t
 }
 
 // complete builds a complete message from a header description and an item, by one of several routes.
@@ -472,6 +482,14 @@ func setLen(b []byte) []byte {
 	return b
 }
 
+// setLen4 patches the length field if there is one
+func setLen4(b []byte) []byte {
+	if len(b) >= 4 {
+		return setLen(b)
+	}
+	return b
+}
+
 func clone(b []byte) []byte { return append([]byte(nil), b...) }
 
 // corrupt: random valid encodings, their non-minimal rewritings, and single-point corruptions of both.
@@ -512,6 +530,14 @@ func driverCorrupt(c *Ctx) {
 			step := 1
 			if len(src) > 60 {
 				step = len(src) / 40
+			}
+			for cut := 0; cut < 14 && v == 0; cut++ { // shorter than a header (nil for 0)
+				if cut == 0 {
+					add("trunc", nil)
+				} else {
+					add("trunc", clone(src[:cut]))
+					add("trunc+len", setLen4(clone(src[:cut])))
+				}
 			}
 			for cut := 14; cut < len(src); cut += step {
 				add("trunc", clone(src[:cut]))
